@@ -4,6 +4,7 @@ destination holds exactly what its source held, provided the sources are
 pairwise non-nested and unrelated to the outs directory.
 -/
 import Martian.PostProcess
+import Martian.PostProcessDefs
 import Proofs.PostProcess
 import Proofs.PostProcessLeaves
 import Proofs.PostProcessDests
@@ -42,12 +43,6 @@ theorem unrelated_below {p top x : Path} (h1 : ¬ p <+: top) (h2 : ¬ top <+: p)
     exact h2 (hx.trans h)
 
 /-! ## what a leaf names -/
-
-/-- the source path a leaf names (a non-empty absolute path string), if any -/
-def Leaf.src (l : Leaf) : Option Path :=
-  match l.v with
-  | .str s => if s = "" then none else parsePath s
-  | _ => none
 
 theorem statExists_none (fs : FS) (n : Nat) (q : Path) (h : fs.get q = none) :
     statExists fs n q = false := by
@@ -93,24 +88,6 @@ theorem runLeaf_movable (fs : FS) (l : Leaf) (p : Path)
   | obj kvs => simp [Leaf.src] at hsrc
 
 /-! ## the hypotheses -/
-
-/-- The situation in which `content_preserved` is claimed, for a list of leaf
-calls `ls` all working below the outs directory `top`, in file system `fs`:
-* `dests`   destinations pairwise incomparable (this is `dest_injective`),
-* `below`   every leaf's directory is at or below `top`,
-* `apart`   no source is an ancestor of `top` or lies under it,
-* `nonnest` sources of different leaves are not nested (in particular distinct),
-* `status`  every source is missing, or a regular file/directory inside the pipestance,
-* `free`    nothing occupies a destination yet. -/
-structure Clean (ps top : Path) (fs : FS) (ls : List Leaf) : Prop where
-  dests : ls.Pairwise LeafIncomp
-  below : ∀ l ∈ ls, top <+: l.outs
-  apart : ∀ l ∈ ls, ∀ p, l.src = some p → ¬ p <+: top ∧ ¬ top <+: p
-  nonnest : ls.Pairwise (fun l1 l2 => ∀ p1 p2, l1.src = some p1 → l2.src = some p2 →
-    ¬ p1 <+: p2 ∧ ¬ p2 <+: p1)
-  status : ∀ l ∈ ls, ∀ p, l.src = some p →
-    fs.get p = none ∨ ∃ e, fs.get p = some e ∧ e.isLink = false ∧ inside ps p = true
-  free : ∀ l ∈ ls, fs.get l.dest = none
 
 theorem dest_below {top : Path} {l : Leaf} (h : top <+: l.outs) : top <+: l.dest :=
   h.trans (List.prefix_append _ _)
